@@ -36,6 +36,7 @@ LEVEL_TEXT = (
 )
 LEVEL_NOTE = "Metamorphic: only the independence stated in C15 is assumed; the thread stress is additional hostility, not a thread-safety claim."
 LEVEL_TEXT += ' One LayerRule object is applied to two architectures with different module sets (a regex layer the rule does not mention matches a module only one of them has); shuffled-enumeration scans include trees with a package reachable under a second name through a directory symlink. Additionally an end-to-end soak: random projects on disk are scanned with the real scanner (externals kept or dropped, external exclusions, level limits, module_path below the root) and module rules, layer rules, diagram rules and plots are interleaved on those architectures with every monitor armed.'
+LEVEL_TEXT += ' The hash-seed probe contains modules that differ only in case / zero padding; shuffled scans include a module file beside a package of the same name.'
 RULE = "an evaluation = one rule evaluation / scan inside a history; a case = one pool + its interleavings, or one tree + its enumeration orders; non-trivial = pool in which some rule failed with a multi-line message; distinct = distinct (pool, interleaving) / (tree, order) pairs"
 ASSUMPTIONS = ["the directory-enumeration shim shuffles pathlib.Path.iterdir (what the parser uses); zero shuffles make the run inconclusive"]
 SHARD_TIMEOUT = {"quick": 900, "thorough": 3000}
